@@ -450,3 +450,33 @@ PROPS["C19"] = {
         {"name": "validate", "mode": "rapid", "run": "TestC19Validate", "checks": {"quick": 1600, "thorough": 32000}},
     ],
 }
+
+PROPS["C11"] = {
+    "level": "exploration",
+    "rule": ("rapid state machine on an auto-refresh cache over 1..3 directories (each existing or missing at the start, optional initial file) "
+             "plus an outside directory on the same file system; no Refresh() call anywhere. Actions: create+write, rewrite in place in "
+             "two chunks, replace by temp file + rename inside the directory, move a complete file in from outside (onto a new or an "
+             "existing name), hard-link a file in, create an empty file, rename away to outside, rename to another Spec name or to a "
+             "non-Spec name inside the directory, remove, mkdir of a missing directory, remove a directory with its content (recreated by a "
+             "later mkdir); contents are valid Specs (2 kinds x 2 device names, unique marker), unparsable or empty; after every action a "
+             "pacing draw: nothing / yield / 1 ms / 20 ms / one query. Oracle (differential, as the statement defines it): after the last "
+             "action the view through queries (devices with path, priority and definition; files in error) is polled until it equals the "
+             "view of a cache freshly built from the final directory contents; only 'still different 10 s after the last change' is a "
+             "violation. Directory-level monitoring errors are not part of the view. One case = one history (~30 actions; counter "
+             "'steps'). Non-trivial iff the history has a create-only event (move-in, link, empty create), a directory removed or "
+             "created, or >= 4 actions; distinct = distinct histories. Race-detector build."),
+    "assumptions": ["'soon' is decided by a 10 s quiescence bound (observed convergence: milliseconds)",
+                    "not generated: renaming a watched directory away, writes through a hard link from outside, chmod-only changes, symlink targets changing"],
+    "manifest": {
+        "text": ("Generated histories of real file-system operations against a live watcher goroutine, compared with a freshly built cache after "
+                 "quiescence. Schedules relative to the watcher are sampled through pacing draws, not enumerated; liveness is judged by a bound."),
+        "note": "trusted: a manual-refresh cache over the final directory contents as the reference (its correctness is C01's business); inotify delivers events for the operations performed",
+        "technique": "property-based testing: rapid state machine over file-system histories with pacing draws, differential oracle (fresh cache) after quiescence",
+    },
+    "parallel": 16,
+    "health": {"quick": {"op:moveIn": 500, "op:linkIn": 500, "op:createEmpty": 300, "op:removeDir": 500, "op:mkdirMissing": 300, "op:rewriteInChunks": 500,
+                         "op:renameInside": 500, "op:renameAway": 500, "last:moveIn": 20, "last:linkIn": 20, "last:remove": 20}},
+    "units": [
+        {"name": "rapid", "mode": "rapid", "run": "TestC11Rapid", "race": True, "checks": {"quick": 2400, "thorough": 48000}, "timeout": {"quick": 400, "thorough": 3600}},
+    ],
+}
